@@ -85,6 +85,7 @@ type injReg struct {
 	Impl  string `json:"impl"` // concrete type of the value
 	Via   string `json:"via"`  // Map | MapTo | Set
 	Tag   string `json:"tag"`
+	Nil   bool   `json:"typed_nil,omitempty"` // the registered value is a typed nil pointer (a legal registration; identity "nil:<type>")
 }
 
 func init() {
@@ -106,6 +107,9 @@ func init() {
 }
 
 func mkValue(impl reflect.Type, tag string, chans map[string]string) reflect.Value {
+	if strings.HasPrefix(tag, "nil:") {
+		return reflect.Zero(impl)
+	}
 	switch impl {
 	case tyT1:
 		return reflect.ValueOf(cT1{tag})
@@ -144,6 +148,9 @@ func tagOfValue(v reflect.Value, chans map[string]string) string {
 			return "<nil>"
 		}
 		v = v.Elem()
+	}
+	if v.Kind() == reflect.Ptr && v.IsNil() {
+		return "nil:" + v.Type().String()
 	}
 	switch x := v.Interface().(type) {
 	case cT1:
@@ -202,6 +209,9 @@ func genInjCase(rng *rand.Rand) *injCase {
 		impl := impls[rng.Intn(len(impls))]
 		n++
 		reg := injReg{Scope: rng.Intn(c.Scopes), Key: tyName(key), Impl: tyName(impl), Tag: fmt.Sprintf("v%d", n)}
+		if impl.Kind() == reflect.Ptr && rng.Intn(8) == 0 {
+			reg.Nil, reg.Tag = true, "nil:"+impl.String()
+		}
 		switch {
 		case key.Kind() == reflect.Interface:
 			reg.Via = []string{"MapTo", "Set"}[rng.Intn(2)]
@@ -547,6 +557,11 @@ func judgeInj(w *core.W, c *injCase) {
 	chans := map[string]string{}
 	scopes, tbl := buildScopes(c, chans)
 	nearest := scopes[len(scopes)-1]
+	for _, rg := range c.Regs {
+		if rg.Nil {
+			w.Count("typed-nil-registered")
+		}
+	}
 
 	if c.Apply {
 		var tgt applyTarget
@@ -604,6 +619,20 @@ func judgeInj(w *core.W, c *injCase) {
 				return false
 			}
 			return true
+		}
+		// Apply on a struct passed by value is a legal no-op (nothing is settable); it must not influence later calls
+		if len(c.Regs)%3 == 0 {
+			var byVal error
+			var bp interface{}
+			func() {
+				defer func() { bp = recover() }()
+				byVal = nearest.Apply(applyTarget{})
+			}()
+			w.Count("apply-by-value-first")
+			if bp != nil || byVal != nil {
+				w.Violate("apply", c, fmt.Sprintf("Apply on a struct passed by value: panic=%v err=%v (nothing is settable, so nothing can fail)", bp, byVal))
+				return
+			}
 		}
 		if !applyOnce("first Apply") {
 			return
@@ -973,7 +1002,7 @@ func runC04(r *core.Run) {
 		judgeFlameInj(w, c)
 	})
 	r.Gate("distinct_nontrivial", r.NonTrivialCount(), 5000)
-	for _, k := range []string{"nt:candidates-in>=2-scopes", "nt:exact-and-implementor", "nt:unresolvable", "nt:re-registered", "invocations:fast", "invocations:reflective", "apply", "apply-unresolved", "flame-requests", "nt:request-shadows-application", "wrapping:context", "wrapping:http", "wrapping:handlerfunc", "wrapping:teapot", "wrapping:logger", "several-implementors-in-scope(any accepted)", "second-invocation-after-more-registrations", "nt:later-registration-changes-the-resolution", "apply-again-after-more-registrations", "context-remapped-before-context-handler"} {
+	for _, k := range []string{"nt:candidates-in>=2-scopes", "nt:exact-and-implementor", "nt:unresolvable", "nt:re-registered", "invocations:fast", "invocations:reflective", "apply", "apply-unresolved", "flame-requests", "nt:request-shadows-application", "wrapping:context", "wrapping:http", "wrapping:handlerfunc", "wrapping:teapot", "wrapping:logger", "several-implementors-in-scope(any accepted)", "second-invocation-after-more-registrations", "nt:later-registration-changes-the-resolution", "apply-again-after-more-registrations", "context-remapped-before-context-handler", "apply-by-value-first", "typed-nil-registered"} {
 		r.GateCounter(k, 100)
 	}
 }
